@@ -19,7 +19,7 @@ func init() {
 			"R10-bounds — 'never read or disturb values belonging to callers': in Get and Replace every register access whose index derives from an API index is guarded by a comparison with the current frame's base (negative indices) or with the registry top (positive indices); indexToReg returns -1 below the base; Remove and Insert clamp at the base; Pop raises on underflow before popping; GetTop is top minus base; SetTop never cuts below the base. " +
 			"R04-events shared — ObjLen consults __len for every operand type that is not a string, as the VM's OP_LEN does. R02-copies — every go-inlined copy of a frame/registry helper (initCallFrame, pushCallFrame, closeUpvalues, registry.Set/SetTop/CopyRange/checkSize …; ~130 blocks in state.go and vm.go) has the same statements as the definition it names, so the host-side call path (callR → pushCallFrame) and the VM's CALL/TAILCALL paths set a frame up alike. R10-retcount — in every host function of the libraries, a constant `return k` is reached only after at least k pushes, and a `return 0` is not preceded by pushes on every path (a prepared result is not dropped). R10-argtypes — every numeric argument accessor (CheckInt, CheckInt64, CheckNumber, OptInt, OptInt64, OptNumber) accepts a number or a string that converts to one, through the one numeral reader; CheckString accepts a string or a number. NOT decided: the NRet contract of Call/PCall/CallByParam, callGFunction's result selection, growth under pushes.",
 		Trusted: []string{},
-		Rules:   []func(*Ctx){ruleLessThanSameType, rulePseudoIndexNeedsFrame, ruleSetFieldStores, ruleProtectedMetatable, ruleShare, ruleApiBounds, ruleEvents, ruleInlineCopies, ruleRetCount, ruleStaleRegistrySlice, ruleArgTypes, ruleApiHoles, ruleRestore, ruleSurplusArgs, ruleIndexHandlerGetsCurrentLink, ruleAbsoluteTopRestoredAbsolutely},
+		Rules:   []func(*Ctx){ruleInsertTopWithinCheckedCapacity, ruleLessThanSameType, rulePseudoIndexNeedsFrame, ruleSetFieldStores, ruleProtectedMetatable, ruleShare, ruleApiBounds, ruleEvents, ruleInlineCopies, ruleRetCount, ruleStaleRegistrySlice, ruleArgTypes, ruleApiHoles, ruleRestore, ruleSurplusArgs, ruleIndexHandlerGetsCurrentLink, ruleAbsoluteTopRestoredAbsolutely},
 	})
 }
 
